@@ -270,7 +270,7 @@ SETS = {
 }
 
 
-def ob_set_index(setname, sys, flags):
+def ob_set_index(setname, sys, flags, grow=None):
     """SetQOperations: index_var_total_from_local_info / local_info_from_index_var_total are mutually inverse and
     var_total()[total index] is the variable `local` of operation `k` of that type"""
     spec = SETS[setname]
@@ -279,6 +279,11 @@ def ob_set_index(setname, sys, flags):
     order = ["state", "gate", "povm", "mprocess"]
     sizes = {typ: [n_var(typ, d, m, flagpat[t % len(flagpat)]) for t, (ty, m) in enumerate(spec) if ty == typ] for typ in order}
     total = sum(sum(v) for v in sizes.values())
+    if grow:
+        # `grow`: after a first use (both lookups), one more operation of that type is added through the property setter: every map
+        # must describe the CURRENT contents (second use of the same object)
+        first_t = next(t for t, (ty, m) in enumerate(spec) if ty == grow)
+        total += n_var(grow, d, spec[first_t][1], flagpat[first_t % len(flagpat)])
 
     def inputs():
         out = [("t", "int", 0, total - 1)]
@@ -289,6 +294,15 @@ def ob_set_index(setname, sys, flags):
     def run(I):
         c = qenv.csys(sys)
         sq, groups = _mixed_set(c, I, spec, flagpat)
+        if grow:
+            sq.local_info_from_index_var_total(0)
+            sq.index_var_total_from_local_info(grow, 0, 0)
+            attr = {"state": "states", "gate": "gates", "povm": "povms", "mprocess": "mprocesses"}[grow]
+            extra = groups[grow][0].copy()
+            newlist = list(getattr(sq, attr)) + [extra]
+            setattr(sq, attr, newlist)
+            groups = dict(groups)
+            groups[grow] = newlist
         t = I["t"]
         vt = sq.var_total()
         out = [Holds("size_var_total", sq.size_var_total() == total), Holds("len(var_total)", len(vt) == total)]
@@ -392,6 +406,8 @@ def obligations(tier):
     for sn, fl in tiers(tier, [("A", "TF"), ("B", "FT")], [("A", "TF"), ("A", "FT"), ("B", "FT"), ("B", "T"), ("C", "TF"), ("C", "F")]):
         out += specs("C03.set.index", [{"setname": sn, "sys": "Q1", "flags": fl}], ob_set_index, 6)
         out += specs("C03.set.from_var_total", [{"setname": sn, "sys": "Q1", "flags": fl}], ob_set_from_var_total, 2)
+    for g in ("state", "povm", "gate"):
+        out += specs("C03.set.index", [{"setname": "A", "sys": "Q1", "flags": "TF", "grow": g}], ob_set_index, 6)
     return out
 
 
